@@ -5,7 +5,8 @@
    where <cps> are decimal code points joined by '.'.
    modes:  tokens  value                -> wrap (json_tokens v), token kinds as the harness prints them, no spans
            expect  value                -> "wf=<b> distinct=<b> depth=<n> <dump of yaml_of_json v>"
-           oracle  value @@ <hx load line> -> "1" / "0"   (c13_impl_ok on the implementation's documents) *)
+           oracle  value @@ <hx load line> -> "1" / "0"   (c13_impl_ok on the implementation's documents)
+           coltab  <code points of a text, space separated> -> "1" / "0"   (colon_tab Tout: class of the known finding) *)
 open Model
 
 let rec pos_of_int i = if i = 1 then XH else if i land 1 = 0 then XO (pos_of_int (i lsr 1)) else XI (pos_of_int (i lsr 1))
@@ -156,6 +157,10 @@ let () =
         else
           let body = if String.length r > 3 then String.sub r 3 (String.length r - 3) else "" in
           b (c13_impl_ok v (parse_docs body))
+    | "coltab" ->
+        let t = String.trim line in
+        let cs = if t = "" then [] else List.map (fun x -> n_of_int (int_of_string x)) (String.split_on_char ' ' t) in
+        b (colon_tab Tout cs)
     | _ -> failwith "mode" in
   try
     while true do
